@@ -45,7 +45,9 @@ def render_vmx(devs, rng, style):
         if s["cls"] == "scsi":
             lines.append(f'{_case(ctl + ".virtualDev", rng, style["case"])} = "lsilogic"')
         lines.append(f'{key("present")} = "TRUE"')
-        fname = f'disk {s["cls"]}-{s["bus"]}-{s["unit"]} dïsk.vmdk' if d["type"] in ("none", "disk", "scsi-hardDisk") else f'image-{s["cls"]}{s["unit"]}.iso'
+        tag = f'{s["cls"]}-{s["bus"]}-{s["unit"]}'
+        fname = (rng.choice(VMX_NAME_POOL).format(tag) if style.get("names") else f'disk {tag} dïsk.vmdk') if d["type"] in ("none", "disk", "scsi-hardDisk") \
+            else f'image-{s["cls"]}{s["unit"]}.iso'
         if d["file"]:
             if d["dup"]:
                 lines.append(f'{key("fileName")} = "stale-{fname}"')
@@ -90,8 +92,8 @@ def render_ovf(body, rng, style):
     ids = style.get("ids", "plain")
     fm = body["fmap"]
     fm = fm if isinstance(fm, dict) else {i + 1: v for i, v in enumerate(fm)}
-    fid = {1: "file1", 2: "file2"} if ids == "plain" else {1: "ovf", 2: "fvo:o"}
-    did = {1: "vmdisk1", 2: "vmdisk2"} if ids == "plain" else {1: "vof", 2: "ffo"}
+    fid = {"plain": {1: "file1", 2: "file2"}, "alphabet": {1: "ovf", 2: "fvo:o"}, "words": {1: "file", 2: "1"}, "words2": {1: "elif", 2: "file-file"}}[ids]
+    did = {"plain": {1: "vmdisk1", 2: "vmdisk2"}, "alphabet": {1: "vof", 2: "ffo"}, "words": {1: "disk1", 2: "1"}, "words2": {1: "system", 2: "kdisk-id"}}[ids]
     href = {1: "disk one.vmdk", 2: "second-disk ✓.vmdk"}
     po, pr = style.get("po", "ovf"), style.get("pr", "rasd")
     x = [f'<?xml version="1.0" encoding="UTF-8"?>',
@@ -156,33 +158,51 @@ def render_pvs(body, rng, style):
     return "\n".join(out), names
 
 
+# file names with characters that mean something elsewhere in the grammar (comment marker, assignment, escapes, separators)
+VMX_NAME_POOL = ["disk {} dïsk.vmdk", "data #2 {}.vmdk", "#scratch {}.vmdk", "a=b {}.vmdk", "{} = x.vmdk", "semi;colon {}.vmdk", "per%20cent {}.vmdk",
+                 "back\\slash\\{}.vmdk", "/vmfs/volumes/ds 1/{}/disk.vmdk", "C:\\vms\\{}\\disk.vmdk", "tab\t{}.vmdk", "it's {}.vmdk", "{}|pipe&amp.vmdk",
+                 "{} .vmdk", "scsi0:0.fileName {}.vmdk", "{}.vmdk #not a comment"]
 VMX_STYLES = [
     {"case": "asis", "typecase": "asis", "shuffle": False, "comments": False, "spacing": False, "quotes": "all", "crlf": False},
     {"case": "lower", "typecase": "upper", "shuffle": True, "comments": True, "spacing": True, "quotes": "all", "crlf": True},
     {"case": "upper", "typecase": "mixed", "shuffle": True, "comments": True, "spacing": True, "quotes": "none", "crlf": False},
     {"case": "mixed", "typecase": "asis", "shuffle": False, "comments": True, "spacing": False, "quotes": "all", "crlf": False},
+    {"case": "asis", "typecase": "asis", "shuffle": True, "comments": True, "spacing": True, "quotes": "all", "crlf": False, "names": True},
+    {"case": "lower", "typecase": "lower", "shuffle": False, "comments": False, "spacing": False, "quotes": "all", "crlf": True, "names": True},
 ]
-OVF_STYLES = [{"ids": "plain"}, {"ids": "alphabet", "po": "o", "pr": "r"}, {"ids": "alphabet", "po": "ovf", "pr": "rasd", "nl": False}]
+OVF_STYLES = [{"ids": "plain"}, {"ids": "alphabet", "po": "o", "pr": "r"}, {"ids": "alphabet", "po": "ovf", "pr": "rasd", "nl": False},
+              {"ids": "words"}, {"ids": "words2", "po": "disk", "pr": "file"}]
 
 
-def observe(kind, body, rng, style):
-    """Render, parse with the real class, return (reported, expected-name resolver, text)."""
+def observe(kind, body, rng, style, history=None):
+    """Render, parse with the real class, return (reported, expected-name resolver, text).
+
+    history (a list, filled in): what the same object reports on later calls - a peek at the first element of a fresh
+    disks() call (["peek", [x] or []]), then a second complete listing (["list", [...]])."""
     if kind == "vmx":
         from dissect.hypervisor.descriptor.vmx import VMX
         devs = body if isinstance(body, list) else list(body)
         text, names = render_vmx(devs, rng, style)
-        return VMX.parse(text).disks(), names, text
-    if kind == "ovf":
+        obj = VMX.parse(text)
+    elif kind == "ovf":
         from dissect.hypervisor.descriptor.ovf import OVF
-        text, href = render_ovf(body, rng, style)
-        return list(OVF(io.StringIO(text)).disks()), href, text
-    if kind == "vbox":
+        text, names = render_ovf(body, rng, style)
+        obj = OVF(io.StringIO(text))
+    elif kind == "vbox":
         from dissect.hypervisor.descriptor.vbox import VBox
-        text, locs = render_vbox(body, rng, style)
-        return list(VBox(io.StringIO(text)).disks()), locs, text
-    from dissect.hypervisor.descriptor.pvs import PVS
-    text, names = render_pvs(body, rng, style)
-    return list(PVS(io.StringIO(text)).disks()), names, text
+        text, names = render_vbox(body, rng, style)
+        obj = VBox(io.StringIO(text))
+    else:
+        from dissect.hypervisor.descriptor.pvs import PVS
+        text, names = render_pvs(body, rng, style)
+        obj = PVS(io.StringIO(text))
+    first = list(obj.disks())
+    if history is not None:
+        it = iter(obj.disks())
+        x = next(it, None)
+        history.append(["peek", [] if x is None else [x]])
+        history.append(["list", list(obj.disks())])
+    return first, names, text
 
 
 def expected_names(kind, expect, names):
@@ -213,7 +233,8 @@ def run(ctx):
                 body, expect = st["cfg"]["body"], st["expect"]
                 for style in (styles if kind != "vmx" else rng.sample(styles, 2)):
                     try:
-                        got, names, text = observe(kind, body, rng, style)
+                        hist = []
+                        got, names, text = observe(kind, body, rng, style, hist)
                         want = expected_names(kind, expect, names)
                     except Exception as e:  # noqa: BLE001
                         sub.violation({"kind": kind, "fail": "raised", "exc": type(e).__name__}, {"cfg": st["cfg"], "style": style, "error": repr(e)[:300]})
@@ -223,6 +244,9 @@ def run(ctx):
                              sample={"kind": kind, "cfg": st["cfg"], "style": style, "expected": want} if nt and idx == 1 else None)
                     if list(got) != want:
                         sub.violation({"kind": kind, "fail": "disk-list"}, {"cfg": st["cfg"], "style": style, "want": want, "got": list(got), "text": text[:1500]})
+                    elif hist[0][1] != want[:1] or hist[1][1] != want:
+                        # the list is a function of the configuration, not of earlier calls on the object
+                        sub.violation({"kind": kind, "fail": "disk-list-history"}, {"cfg": st["cfg"], "style": style, "want": want, "history": hist})
                     if len(sub.violations) >= sub.max_violations:
                         return
 
@@ -244,39 +268,44 @@ def random_configs(ctx, rng, n):
             if kind == "vmx":
                 slots = rng.sample([(c, u) for c in classes for u in (0, 1)], rng.randrange(1, 8))
                 body = [{"slot": {"cls": c, "bus": 0, "unit": u}, "type": rng.choice(types), "file": rng.random() < 0.8, "dup": rng.random() < 0.3} for c, u in slots]
-                got, names, _ = observe("vmx", body, rng, rng.choice(VMX_STYLES))
+                hist = []
+                got, names, _ = observe("vmx", body, rng, rng.choice(VMX_STYLES), hist)
                 inv = {v: k for k, v in names.items()}
-                reported = [{"cls": inv[g][0], "bus": inv[g][1], "unit": inv[g][2]} for g in got]
+                conv = lambda l: [{"cls": inv[g][0], "bus": inv[g][1], "unit": inv[g][2]} for g in l]  # noqa: E731
             elif kind == "ovf":
                 body = {"fmap": [rng.choice([1, 2]), rng.choice([1, 2])],
                         "items": [{"rtype": rng.choice([17, 17, 15, 14, 6]), "kind": rng.choice(["disk", "file"]), "idx": rng.choice([1, 2]), "prefix": rng.random() < 0.5}
                                   for _ in range(rng.randrange(0, 7))]}
-                got, href, _ = observe("ovf", body, rng, rng.choice(OVF_STYLES))
+                hist = []
+                got, href, _ = observe("ovf", body, rng, rng.choice(OVF_STYLES), hist)
                 inv = {v: k for k, v in href.items()}
-                reported = [inv[g] for g in got]
+                conv = lambda l: [inv[g] for g in l]  # noqa: E731
             elif kind == "vbox":
                 body = [{"format": rng.choice(["VDI", "vdi", "Vdi", "VMDK", "VHD"]), "type": rng.choice(["Normal", "Normal", "Immutable", "Writethrough"]),
                          "loc": rng.random() < 0.85, "nested": rng.random() < 0.4} for _ in range(rng.randrange(0, 8))]
-                got, locs, _ = observe("vbox", body, rng, rng.choice([{}, {"attr_order": True}]))
+                hist = []
+                got, locs, _ = observe("vbox", body, rng, rng.choice([{}, {"attr_order": True}]), hist)
                 inv = {v: k for k, v in locs.items()}
-                reported = [inv[g] for g in got]
+                conv = lambda l: [inv[g] for g in l]  # noqa: E731
             else:
                 body = [{"kind": rng.choice(["Hdd", "Hdd", "CdRom", "Fdd"]), "sysname": rng.random() < 0.8} for _ in range(rng.randrange(0, 8))]
-                got, names, _ = observe("pvs", body, rng, {})
+                hist = []
+                got, names, _ = observe("pvs", body, rng, {}, hist)
                 inv = {v: k for k, v in names.items()}
-                reported = [inv[g] for g in got]
+                conv = lambda l: [inv[g] for g in l]  # noqa: E731
+            reported, peek, again = conv(got), conv(hist[0][1]), conv(hist[1][1])
         except Exception as e:  # noqa: BLE001
             ctx.violation({"kind": kind, "fail": "raised", "sub": "random-configs", "exc": type(e).__name__}, {"error": repr(e)[:300]})
             continue
         ctx.case(key=("random", kind, repr(body)), nontrivial=True)
-        runs.append({"tid": tid, "kind": kind, "body": body, "reported": reported})
+        runs.append({"tid": tid, "kind": kind, "body": body, "reported": reported, "peek": peek, "again": again})
     if runs:
         verdicts, res = tracecheck.validate("VmConfig", "TraceVmConfig.cfg", runs)
         ctx.add_tlc("TraceVmConfig.cfg (random configurations)", res)
         for r in runs:
             ctx.traces_validated += 1
             if verdicts[r["tid"]][0] == "reject":
-                ctx.violation({"kind": r["kind"], "fail": "disk-list", "sub": "random-configs"}, {"body": r["body"], "reported": r["reported"]})
+                ctx.violation({"kind": r["kind"], "fail": "disk-list", "sub": "random-configs"}, {"body": r["body"], "reported": r["reported"], "peek": r["peek"], "again": r["again"]})
 
 
 def vmx_dictionary_semantics(ctx):
